@@ -2174,6 +2174,9 @@ def _preprocess_tactile_contacts(
     return
   worldid = contact_worldid_in[conid]
   contact_geom = contact_geom_in[conid]
+  # flex contacts carry geom id -1 on the flex side(s)
+  if contact_geom[0] < 0 or contact_geom[1] < 0:
+    return
   weld1 = body_weldid[geom_bodyid[contact_geom[0]]]
   weld2 = body_weldid[geom_bodyid[contact_geom[1]]]
   geom1 = contact_geom[0]
